@@ -102,6 +102,7 @@ type caseSink struct {
 	stats     verifStats
 	distinct  map[string]bool
 	preamble  string
+	scope     string // scope opened in cases files (default Z_scope)
 }
 
 func newCaseSink(t *testing.T, env verifEnv, prop, runModule string, shardSize int) *caseSink {
@@ -139,12 +140,19 @@ func (s *caseSink) add(coqTerm string, js interface{}, nontrivial bool, key stri
 
 func (s *caseSink) count(key string) { s.stats.Histogram[key]++ }
 
+func (s *caseSink) scopeName() string {
+	if s.scope != "" {
+		return s.scope
+	}
+	return "Z_scope"
+}
+
 func (s *caseSink) flush() {
 	if len(s.cur) == 0 {
 		return
 	}
 	var b strings.Builder
-	fmt.Fprintf(&b, "From Coq Require Import List ZArith NArith String.\nFrom Verif Require Import %s.\nImport ListNotations.\nOpen Scope Z_scope.\n", s.runModule)
+	fmt.Fprintf(&b, "From Coq Require Import List ZArith NArith String.\nFrom Verif Require Import %s.\nImport ListNotations.\nOpen Scope %s.\n", s.runModule, s.scopeName())
 	b.WriteString(s.preamble)
 	b.WriteString("Definition cases : list case := [\n")
 	b.WriteString(strings.Join(s.cur, ";\n"))
